@@ -39,6 +39,29 @@ func (x *Exec) sindexFacts(st *State, s, sub *Term) *Term {
 }
 
 func init() {
+	// equality and prefix/suffix tests are definable in the sequence theory itself (no assumption beyond A-BUF's "as documented")
+	bytesOf := func(x *Exec, st *State, v Value) *Term {
+		if sv, ok := v.(*SliceVal); ok {
+			return x.sliceBytes(st, sv)
+		}
+		return v.(*Term)
+	}
+	reg("bytes.Equal", func(x *Exec, st *State, fr *Frame, in ssa.Instruction, callee *ssa.Function, args []Value) []Value {
+		x.assume("A-BUF")
+		return one(Eq(bytesOf(x, st, args[0]), bytesOf(x, st, args[1])))
+	})
+	for _, pkg := range []string{"bytes", "strings"} {
+		reg(pkg+".HasPrefix", func(x *Exec, st *State, fr *Frame, in ssa.Instruction, callee *ssa.Function, args []Value) []Value {
+			x.assume("A-BUF")
+			s, p := bytesOf(x, st, args[0]), bytesOf(x, st, args[1])
+			return one(And(Ge(Len(s), Len(p)), Eq(Take(s, Len(p)), p)))
+		})
+		reg(pkg+".HasSuffix", func(x *Exec, st *State, fr *Frame, in ssa.Instruction, callee *ssa.Function, args []Value) []Value {
+			x.assume("A-BUF")
+			s, p := bytesOf(x, st, args[0]), bytesOf(x, st, args[1])
+			return one(And(Ge(Len(s), Len(p)), Eq(Drop(s, Sub(Len(s), Len(p))), p)))
+		})
+	}
 	reg("strings.Index", func(x *Exec, st *State, fr *Frame, in ssa.Instruction, callee *ssa.Function, args []Value) []Value {
 		x.assume("A-BUF")
 		return one(x.sindexFacts(st, args[0].(*Term), args[1].(*Term)))
